@@ -881,6 +881,12 @@ impl PaZipCompressor {
     
     /// Calculate cost analysis for global match
     fn calculate_global_match_cost(&self, global_match: crate::compression::dict_zip::matcher::Match) -> Result<Option<(CompressionStrategy, CostAnalysis)>> {
+        // The Global record holds the dictionary offset and the length in 2 bytes each: a match
+        // beyond that cannot be written down, so it is no candidate for this position
+        if global_match.dict_position > u16::MAX as usize || global_match.length > u16::MAX as usize {
+            return Ok(None);
+        }
+
         // Global matches always use Global compression type
         let compression_type = CompressionType::Global;
         
